@@ -83,6 +83,18 @@ def check_export(gd, res, layers, dist, completed_expected):
         dense2 = res.adjacency_matrix()
         if {(int(a), int(b)) for a, b in zip(*np.nonzero(dense2))} != set(el):
             return "adjacency matrix changed after other exports were requested"
+        # an UNDIRECTED networkx export of a graph whose generator set is not inverse-closed must be refused; if one is returned anyway, every adjacency in
+        # it must be a true edge in both directions
+        if not res.graph.generators_inverse_closed:
+            try:
+                ug = res.to_networkx_graph(directed=False)
+            except (AssertionError, ValueError):
+                ug = None
+            if ug is not None:
+                for u, v in ug.edges():
+                    a, b = index[u], index[v]
+                    if (a, b) not in set(el) or (b, a) not in set(el):
+                        return f"to_networkx_graph(directed=False) on a directed graph was not refused and connects {u!r} and {v!r} although no generator maps one to the other in both directions"
         # the matrix handed out belongs to the caller: symmetrising it or clearing its diagonal in place must not change what the result exports next
         dense2[:] = 0
         dense3 = res.adjacency_matrix()
